@@ -154,9 +154,10 @@ def rule_D(run, prog, f, tier):
                             if wf is None:
                                 got = feval.Evaluator().call_function(f.node, {"config": cfg, "start": start, "stop": stop})
                             else:
-                                arg = list(range(ln)) if "list" in wname else feval.Mat(Vec([0]) for _ in range(ln))
+                                # (arrays with more than one column: the blocks are blocks of rows)
+                                arg = list(range(ln)) if "list" in wname else feval.Mat(Vec([0, 0, 0]) for _ in range(ln))
                                 if "array" in wname and ln == 0:
-                                    arg = Stub("ndarray", shape=(0,))
+                                    arg = Stub("ndarray", shape=(0, 3))
                                 env = {wf.node.args.args[0].arg: cfg, wf.node.args.args[1].arg: arg,
                                        "_calculate_ranges": lambda c, a, b: feval.Evaluator().call_function(
                                            f.node, {"config": c, "start": a, "stop": b})}
@@ -237,7 +238,7 @@ def rule_E(run, prog, f, tier):
                             got = list(feval.Evaluator().call_function(h.node, env))
                             want_universe = [(k, 100 + k) for k in range(ln)] if with_index else data
                         else:
-                            data = Mat(Vec([100 + k]) for k in range(ln))
+                            data = Mat(Vec([100 + k, 200 + k]) for k in range(ln))
                             env.update({h.node.args.args[0].arg: data, "return_index": with_index})
                             got = list(feval.Evaluator().call_function(h.node, env))
                             got = [(g_[0], list(g_[1])[0]) if with_index else list(g_)[0] for g_ in got]
